@@ -323,6 +323,7 @@ class Tracer:
         self.signs = {}
         self.concretized = 0
         self.notes = []
+        self.rawcache = {}  # raw-DAG node ids are per path
 
     def check(self, *extra, timeout_ms=None):
         t0 = time.time()
@@ -573,7 +574,8 @@ def raw_of(x):
             if x.d is None and x.n.is_const():
                 x.raw = raw_node("c", x.n.cval())
             else:
-                raise AssertionError("raw expression missing")
+                # engine-made value (e.g. a linear form of the Lagrange reduction): canonical polynomial
+                x.raw = raw_node("p", x.n, x.d)
         return x.raw
     return raw_node("c", Fraction(x))
 
@@ -592,6 +594,9 @@ def raw_z3(i, zvars, cache=None):
             stack.pop()
         elif nd[0] == "v":
             cache[j] = zvars[nd[1]]
+            stack.pop()
+        elif nd[0] == "p":
+            cache[j] = nd[1].z3(zvars) if nd[2] is None else nd[1].z3(zvars) / nd[2].z3(zvars)
             stack.pop()
         else:
             a, b = nd[1], nd[2]
@@ -622,7 +627,7 @@ def raw_size(i):
             continue
         seen.add(j)
         nd = _raw_nodes[j]
-        if nd[0] not in "cv":
+        if nd[0] not in "cvp":
             stack += [nd[1], nd[2]]
     return len(seen)
 
